@@ -258,6 +258,8 @@ func checkC02(c *Ctx) Meta {
 	c.Rule("C02-PAIR", "memory and store change together: for every mutating operation, a durable key written in its transaction has its in-memory field refreshed in the same operation and vice versa", 12)
 	c.Rule("C02-OPEN", "opening loads every keystore listed in the account-id bucket, fails as a whole when one fails, and the public passphrase is verified (DeriveKey on the stored parameters) before anything is decrypted or returned", 4)
 
+	c.Rule("C02-STORE", "deleting a keystore bucket removes its nested buckets: nested buckets live under unrelated key prefixes (depth-prefixed paths), so (*LDBBucket).DeleteBucket must enumerate them through the bucket-name index (BucketNames) and delete each, recursively or in a loop", 1)
+	c02Store(c)
 	c02Errflow(c)
 	c02Keys(c)
 	c02Prov(c)
@@ -834,5 +836,58 @@ func c02Open(c *Ctx) {
 		c.OK(rule, "open:manager-built-from-loaded-state", c.Pos(open.Pos()), "managedKeystores is the map filled by the closure; pubPassphrase is the verified argument")
 	} else {
 		c.Bad(rule, "open:manager-built-from-loaded-state", c.Pos(open.Pos()), fmt.Sprintf("the returned manager is not built from the loaded state (map=%v passphrase=%v)", okMap, okPass))
+	}
+}
+
+// ---- STORE --------------------------------------------------------------------------------
+
+func c02Store(c *Ctx) {
+	rule := "C02-STORE"
+	del := c.MustFn(rule, "poc/wallet/db/ldb", "(*LDBBucket).DeleteBucket")
+	if del == nil {
+		return
+	}
+	seen := c.Reachable([]*ssa.Function{del}, func(from *ssa.Function, e callEdge) bool {
+		return e.Callee != nil && pkgOf(e.Callee) == pkgLDB && (e.Kind == "static" || e.Kind == "closure-made" || e.Kind == "closure-call")
+	})
+	okEnum := false
+	where := ""
+	for f := range seen {
+		for _, bn := range callsIn(f, "(*"+pkgLDB+".LDBBucket).BucketNames") {
+			names := resultOf(bn, 0)
+			// a call inside a loop whose argument derives from one of the names and which deletes
+			allInstrs(f, func(in ssa.Instruction) {
+				cl, ok := in.(*ssa.Call)
+				if !ok || !blockReentered(f, cl) {
+					return
+				}
+				g := cl.Call.StaticCallee()
+				if g == nil || pkgOf(g) != pkgLDB {
+					return
+				}
+				derives := false
+				for _, a := range cl.Call.Args {
+					if backSlice(a).has(names) {
+						derives = true
+					}
+				}
+				if !derives {
+					return
+				}
+				// g (transitively) deletes keys or is the enumerating function itself (recursion)
+				sub := c.Reachable([]*ssa.Function{g}, func(from *ssa.Function, e callEdge) bool {
+					return e.Callee != nil && pkgOf(e.Callee) == pkgLDB
+				})
+				if sub[f] != nil || g == f {
+					okEnum = true
+					where = c.Pos(cl.Pos())
+				}
+			})
+		}
+	}
+	if okEnum {
+		c.OK(rule, "(*LDBBucket).DeleteBucket:nested-buckets-enumerated", where, "BucketNames() of the bucket being deleted feeds a per-name recursive deletion")
+	} else {
+		c.Bad(rule, "(*LDBBucket).DeleteBucket:nested-buckets-enumerated", c.Pos(del.Pos()), "DeleteBucket no longer enumerates the nested buckets of the bucket it deletes: the `pub` sub-bucket of a deleted keystore survives and is adopted by a keystore re-created from the same seed (after which the store cannot be reopened)")
 	}
 }
